@@ -117,7 +117,7 @@ theorem C01_scheduling_requires_a_pending_result (w w' : World) (p : Proc) (i : 
     ∃ r, (w.ev e).getRes? b k = some r ∧ r.status = .pending := by
   obtain ⟨hg, _⟩ := step_some h
   simp [guard, checks, Checks.ok] at hg
-  obtain ⟨_, _, _, _, _, _, hp⟩ := hg
+  obtain ⟨_, _, _, _, _, _, hp, _⟩ := hg
   cases hr : (w.ev e).getRes? b k with
   | none => simp [hr] at hp
   | some r => exact ⟨r, rfl, by simpa [hr] using hp⟩
